@@ -401,6 +401,74 @@ def generic_classes(ctx, cuqi, Pmodel, thorough):
                         ctx.fail(f"{fam}:{pd}D:{bc}:generic:form:{role}:{fname}", desc, r0, got, "same numbers in another dtype / memory layout give another log-density")
                     if snap is not None and not np.array_equal(np.asarray(larg), snap):
                         ctx.fail(f"{fam}:{pd}D:{bc}:generic:modifies:location", desc, snap.tolist(), np.asarray(larg).tolist(), "the caller's location array was modified")
+    # narrow dtypes (uint8 / int8 / bool / float16): arithmetic in the input's own dtype wraps around or is logical; the same NUMBERS
+    # must give the float64 result, for the operators themselves and for the fields built on them
+    from cuqi.operator import FirstOrderFiniteDifference, SecondOrderFiniteDifference, PrecisionFiniteDifference
+    narrow = {"uint8": np.uint8, "int8": np.int8, "bool": np.bool_, "float16": np.float16}
+    for bc in BCS:
+        for n in (3, 6):
+            v = rng.randint(0, 2, size=n) if True else None
+            vv = {"bool": v.astype(bool), "uint8": (v * rng.randint(1, 100, size=n)).astype(np.uint8),
+                  "int8": (v * rng.randint(1, 100, size=n)).astype(np.int8), "float16": (v * rng.randint(1, 9, size=n)).astype(np.float16)}
+            ops = [("first", lambda: FirstOrderFiniteDifference(n, bc)), ("second", lambda: SecondOrderFiniteDifference(n, bc))]
+            for oname, mk in ops:
+                try:
+                    with quiet():
+                        op = mk(); Dd = dense(op.get_matrix())
+                except Exception:
+                    continue
+                for dn, arr in vv.items():
+                    desc = {"operator": oname, "bc": bc, "n": n, "dtype": dn, "v": np.asarray(arr, float).tolist()}
+                    ctx.case("operator-narrow-dtype", {"operator": oname, "bc": bc, "dtype": dn})
+                    try:
+                        with quiet():
+                            got = np.asarray(op @ arr, float).ravel()
+                    except Exception as e:
+                        ctx.note(f"operator refused {dn}: {repr(e)[:60]}"); continue
+                    ref = Dd @ np.asarray(arr, float)
+                    if got.shape != ref.shape or not vclose(got, ref, 1e-3 if dn == "float16" else 1e-12):
+                        ctx.fail(f"operator:{oname}:{bc}:narrow-dtype:{dn}", desc, ref.tolist(), got.tolist(),
+                                 "applying the difference operator to the same numbers in a narrow dtype gives another result (wrap-around / logical arithmetic)")
+            for fam, cls in (("LMRF", LMRF), ("CMRF", CMRF)):
+                for dn in ("uint8", "int8", "bool"):
+                    xa = vv[dn]; la = np.zeros(n, dtype=narrow[dn]); la[0] = 1
+                    try:
+                        with quiet():
+                            r64 = float(cls(np.asarray(la, float), 0.5, bc_type=bc).logpdf(np.asarray(xa, float)))
+                            got = float(cls(la, 0.5, bc_type=bc).logpdf(xa))
+                    except Exception as e:
+                        ctx.note(f"{fam} refused {dn}: {repr(e)[:60]}"); continue
+                    ctx.case("mrf-narrow-dtype", {"fam": fam, "bc": bc, "dtype": dn})
+                    if math.isfinite(r64) and not close(got, r64, 1e-9):
+                        ctx.fail(f"{fam}:1D:{bc}:generic:form:narrow:{dn}", {"mrf": fam, "bc": bc, "n": n, "dtype": dn, "x": np.asarray(xa, float).tolist(), "location": np.asarray(la, float).tolist()},
+                                 r64, got, "same numbers in a narrow dtype give another log-density")
+    # sizes past the small grids of the exact tie: normalising constants of large fields (sums of logs, not logs of products)
+    big = [(2, 1, "zero", 26), (2, 1, "zero", 30), (2, 2, "zero", 20), (1, 1, "zero", 400), (1, 2, "zero", 300), (1, 0, "zero", 800)]
+    if thorough:
+        big += [(2, 1, "zero", 40), (2, 0, "zero", 30), (1, 1, "zero", 1500)]
+    for pd, order, bc, n in big:
+        dim = n if pd == 1 else n * n
+        desc = {"gmrf": f"{pd}D", "order": order, "bc": bc, "n": n, "prec": 3.0}
+        try:
+            with quiet():
+                G = GMRF(np.zeros(dim), 3.0, bc_type=bc, order=order, **({} if pd == 1 else {"geometry": Image2D((n, n))}))
+                Pd = dense(G._prec_op.get_matrix())
+                sign, ld = np.linalg.slogdet(Pd)
+                x = rng.randint(-2, 3, size=dim).astype(float)
+                got = float(G.logpdf(x))
+        except Exception as e:
+            ctx.note(f"large GMRF refused {desc}: {repr(e)[:80]}"); continue
+        ctx.case("gmrf-large", desc)
+        key = f"GMRF:{pd}D:order{order}:{bc}:large"
+        if sign <= 0:
+            continue
+        if int(G._rank) != dim:
+            ctx.fail(key + ":rank", desc, dim, int(G._rank), "zero-boundary precision is positive definite: rank must be the dimension")
+        if not (math.isfinite(float(G._logdet)) and close(float(G._logdet), float(ld), 1e-8)):
+            ctx.fail(key + ":logdet", desc, float(ld), float(G._logdet), "log-determinant of a large field is not the log-determinant of its precision")
+        ref = 0.5 * (dim * (math.log(3.0) - math.log(2 * math.pi)) + float(ld)) - 0.5 * 3.0 * float(x @ (Pd @ x))
+        if not (math.isfinite(got) and close(got, ref, 1e-8)):
+            ctx.fail(key + ":logpdf", desc, ref, got, "GMRF.logpdf of a large field is not the documented density")
     # G8: everything returned earlier still holds its value, and is still what the object reports
     for key, desc, snap, G, what in retained:
         with quiet():
